@@ -66,6 +66,13 @@ func c10Run(c *harness.Check, cs escCase) string {
 		}
 		out = r.Out
 	}
+	if cs.Context == "plain-after-upper" {
+		// the prefix is the length of the upper-cased escaped text: only the part in brackets matters
+		if i := strings.Index(out, "["); i >= 0 {
+			out = out[i:]
+		}
+		cs.Pre = "["
+	}
 	if !strings.HasPrefix(out, cs.Pre) || !strings.HasSuffix(out, cs.Post) || len(out) < len(cs.Pre)+len(cs.Post) {
 		return fmt.Sprintf("output %q is not %q + literal + %q", out, cs.Pre, cs.Post)
 	}
@@ -117,6 +124,14 @@ func c10Contexts(lit string) []escCase {
 		mk("object-member", "[{{ {k: "+lit+"}.k }}]", "[", "]"),
 		mk("each-element", "@each(e in ["+lit+"])[{{ e }}]@end", "[", "]"),
 		mk("if-body", "@if("+lit+" == "+lit+")[{{ "+lit+" }}]@end", "[", "]"),
+		// the opt-out must not leak: a plain use after raw() on the same variable,
+		// array element or loop variable is still escaped
+		mk("plain-after-raw", "{{ v = "+lit+" }}{{ v.raw().len() }}[{{ v }}]", fmt.Sprint(len([]rune(rawOf(lit))))+"[", "]"),
+		mk("element-after-raw", "{{ a = ["+lit+"] }}{{ a[0].raw().len() }}[{{ a[0] }}]", fmt.Sprint(len([]rune(rawOf(lit))))+"[", "]"),
+		mk("each-after-raw", "@each(e in ["+lit+"]){{ e.raw().len() }}[{{ e }}]@end", fmt.Sprint(len([]rune(rawOf(lit))))+"[", "]"),
+		mk("loop-body", "@each(i in [1, 2, 3])[{{ "+lit+" }}]@end", "[", "]["+c10Escape(rawOf(lit))+"]["+c10Escape(rawOf(lit))+"]"),
+		mk("for-body", "@for(i = 0; i < 2; i++)[{{ x = "+lit+"; x }}]@end", "[", "]["+c10Escape(rawOf(lit))+"]"),
+		mk("plain-after-upper", "{{ v = "+lit+" }}{{ v.upper().len() }}[{{ v }}]", "", "]"),
 	}
 	raws := []escCase{
 		mk("raw", "[{{ "+lit+".raw() }}]", "[", "]"),
@@ -127,6 +142,15 @@ func c10Contexts(lit string) []escCase {
 		raws[i].Raw = true
 	}
 	return append(cases, raws...)
+}
+
+func c10RawContext(lit string) escCase {
+	for _, cs := range c10Contexts(lit) {
+		if cs.Context == "raw" {
+			return cs
+		}
+	}
+	panic("no raw context")
 }
 
 func c10TreeContexts(lit string) []escCase {
@@ -164,7 +188,7 @@ func TestC10_ContentsEnum(t *testing.T) {
 					c.Fail(t, kindOf(f), cs, c10Escape(content), f, f)
 				}
 			}
-			raw := c10Contexts(lit)[11]
+			raw := c10RawContext(lit)
 			raw.Content, raw.Quote = content, q
 			c.CaseEnum(c10NonTrivial(content), "context:raw")
 			if f := c10Run(c, raw); f != "" {
@@ -203,4 +227,10 @@ func TestC10_Contexts(t *testing.T) {
 			c.Fail(rt, kindOf(f), cs, c10Escape(content), f, f)
 		}
 	})
+}
+
+// rawOf recovers the content of a printed literal (inverse of tw.QuoteStr).
+func rawOf(lit string) string {
+	q := lit[:1]
+	return strings.ReplaceAll(lit[1:len(lit)-1], "\\"+q, q)
 }
